@@ -172,3 +172,39 @@ fn c18_flush_meta_driver() {
     core::mem::forget(r);
     core::mem::forget(env);
 }
+
+// @harness c17_top_table_flush_failure
+// @props C17 C18
+// @tier quick
+// @cost 60
+// @timeout 900
+// @needs K1 K2
+// @desc a backend failure while a dirty top-table block is being written (flush_top_table / flush_meta_generic, whole bodies): the error is returned, and the block is STILL queued as dirty afterwards, so that repeating the flush once the backend works again writes it -- a dirty mark must not be lost with the failed request
+// @bounds refcount table of 2 KiB (256 entries), one dirty entry at any index; 512-byte blocks; the write of the block fails
+// @funcs Qcow2Dev::flush_top_table Qcow2Dev::flush_meta_generic Table::pop_dirty_blk_idx Table::set_dirty
+// @stub alloc::fmt::format -> String::new()
+#[kani::proof]
+#[kani::unwind(5)]
+#[kani::stub(std::fmt::format, fmt_stub2)]
+fn c17_top_table_flush_failure() {
+    let info = crate::meta::verif_header::mk_info(12, 4, 1u64 << 40, 9, Some((12, 8192)), Some((12, 8192)), false, false, false);
+    let env = KEnv::new(info);
+    let mut rt = RefTable::new(Some(0x1000), 2048, 9);
+    let i0: usize = kani::any();
+    kani::assume(i0 < 256);
+    rt.set_refblock_offset(i0, 0x1000);
+    env.fail_write.set(true);
+    let generic: bool = kani::any();
+    let r = if generic {
+        env.seg_k2(&rt, |off| env.seg_k0_rb(off)).map(|_| ())
+    } else {
+        env.seg_k1(&rt)
+    };
+    assert!(r.is_err());
+    // the block is still dirty: a retry will write it
+    assert!(rt.pop_dirty_blk_idx(None) == Some(((i0 * 8) >> 9) as u32));
+    kani::cover!(generic);
+    kani::cover!(!generic);
+    core::mem::forget(r);
+    core::mem::forget(env);
+}
